@@ -337,16 +337,19 @@ def _ob_readonly_reads(sel: int) -> bool:
     kind = PART
     _fixture()
     st = fakeh5.FS[PATH]
-    frw = nixio.File(PATH, "a")
-    api = _read_api(_entity(frw, kind))
+    before = fakeh5.snapshot(st)
+    # read-only session first, on the pristine store
+    fro = nixio.File(PATH, "r")
+    api = _read_api(_entity(fro, kind))
     assume(sel < len(api))
     name, how = _pick(api, sel)
-    want = _observe(_entity(frw, kind), name, how)
-    frw.close()
-    before = fakeh5.snapshot(st)
-    fro = nixio.File(PATH, "r")
     got = _observe(_entity(fro, kind), name, how)
-    return got == want and fakeh5.snapshot(st) == before
+    if fakeh5.snapshot(st) != before:
+        return False
+    fro.close()
+    frw = nixio.File(PATH, "a")
+    want = _observe(_entity(frw, kind), name, how)
+    return got == want
 
 
 def validate():
